@@ -467,7 +467,8 @@ class Env:
         elif m == "bsize":
             O[op["b"]].size = op["z"]
         elif m == "bytes":
-            O[op["v"]].contents = bytearray(op["bs"])
+            # users assign either a mutable or an immutable byte string
+            O[op["v"]].contents = bytes(op["bs"]) if self._flip() else bytearray(op["bs"])
         elif m == "initsize":
             O[op["v"]].initialized_size = op["k"]
         else:
